@@ -36,6 +36,7 @@ type accTrig struct {
 	direct map[string]bool
 	// direct subscriptions the client knew of (successful responses) just before the trigger
 	cdirect map[string]bool
+	next    *accTrig // the next token trigger of the same connection
 }
 
 // answers reports whether access answer a can serve as the re-check that the
@@ -44,7 +45,14 @@ type accTrig struct {
 // atomic service computes answers when they are delivered).
 func (t *accTrig) answers(a *accAns) bool {
 	if t.kind == "token" {
-		return a.reqTime > t.time && a.token == t.token
+		// with the token it set, or with the token of a later token event
+		// that had superseded it when the request was made
+		for x := t; x != nil; x = x.next {
+			if a.reqTime > x.time && a.token == x.token {
+				return true
+			}
+		}
+		return false
 	}
 	return a.reqTime > t.time || a.ansTime > t.time
 }
@@ -114,6 +122,60 @@ func (m *AccessMon) valid(a *accAns, use int) (bool, *accTrig) {
 		}
 	}
 	return true, nil
+}
+
+// candidates returns the delivered access answers for (cid,key) that can be
+// the verdict a client request made at time from and served at time t was
+// decided on: all answers delivered by t, except those that had been
+// superseded - by the answer to an access request made after they were
+// delivered - before the client request was made. The decision of a request
+// is placed anywhere in its lifetime (a verdict that is replaced while the
+// request waits for the resource may be the one it was decided on), and
+// several access requests of one connection for one resource can be in
+// flight together (a call on an unsubscribed resource uses a subscription
+// object of its own) without one answer superseding the other.
+func (m *AccessMon) candidates(cid, key string, t, from int) []*accAns {
+	var all, out []*accAns
+	for _, a := range m.ans {
+		if a.cid == cid && a.key == key && a.ansTime != 0 && a.ansTime <= t {
+			all = append(all, a)
+		}
+	}
+	for _, a := range all {
+		sup := false
+		for _, b := range all {
+			if b != a && b.reqTime > a.ansTime && b.ansTime < from {
+				sup = true
+			}
+		}
+		if !sup {
+			out = append(out, a)
+		}
+	}
+	return out
+}
+
+// pick returns the candidate most favourable to the gateway: one that
+// satisfies good and is valid for a request made at time use, else one that
+// satisfies good, else the latest.
+func (m *AccessMon) pick(cid, key string, t, use int, good func(a *accAns) bool) *accAns {
+	var fallback, latest *accAns
+	for _, a := range m.candidates(cid, key, t, use) {
+		if latest == nil || a.ansTime > latest.ansTime {
+			latest = a
+		}
+		if !good(a) {
+			continue
+		}
+		if ok, _ := m.valid(a, use); ok {
+			return a
+		}
+		fallback = a
+	}
+	if fallback != nil {
+		return fallback
+	}
+	return latest
 }
 
 // latest returns the latest delivered access answer for (cid,key) not after time t.
@@ -188,7 +250,14 @@ func (m *AccessMon) Step(w *World, action string) {
 			json.Unmarshal([]byte(r.Payload), &te)
 			tok := string(te.Token)
 			if m.hadTok[cid] {
-				m.trigs = append(m.trigs, &accTrig{kind: "token", cid: cid, time: r.Time, token: tok, direct: m.prevDir, cdirect: m.prevCD})
+				nt := &accTrig{kind: "token", cid: cid, time: r.Time, token: tok, direct: m.prevDir, cdirect: m.prevCD}
+				for i := len(m.trigs) - 1; i >= 0; i-- {
+					if p := m.trigs[i]; p.kind == "token" && p.cid == cid {
+						p.next = nt
+						break
+					}
+				}
+				m.trigs = append(m.trigs, nt)
 			}
 			m.hadTok[cid] = true
 			m.lastTok[cid] = tok
@@ -279,7 +348,9 @@ func (m *AccessMon) Step(w *World, action string) {
 					default:
 						continue
 					}
-					if pm == method && p.SentAt > best && p.SentAt <= r.Time {
+					// several identical calls may be outstanding and the forwarded
+					// request does not tell which one it serves: judge by the oldest
+					if pm == method && (best < 0 || p.SentAt < best) && p.SentAt <= r.Time {
 						best = p.SentAt
 					}
 				}
@@ -293,7 +364,7 @@ func (m *AccessMon) Step(w *World, action string) {
 					}
 				}
 			}
-			a := m.latest(f.CID, key, r.Time)
+			a := m.pick(f.CID, key, r.Time, use, func(a *accAns) bool { return a.code == "" && callGranted(a.call, method) })
 			switch {
 			case a == nil:
 				w.Fail("C05", "call-without-access", "%s was forwarded although no access answer for %s %s had been delivered", r.CSubject, w.label(f.CID), w.Canon(key))
@@ -337,7 +408,7 @@ func (m *AccessMon) Step(w *World, action string) {
 			case "subscribe", "get":
 				name, q := splitKey(strings.ReplaceAll(p.RID, "{cid}", c.CID))
 				key := accKey(name, q)
-				a := m.latest(c.CID, key, rsp.At)
+				a := m.pick(c.CID, key, rsp.At, p.SentAt, func(a *accAns) bool { return a.grantG })
 				if rsp.IsErr {
 					continue
 				}
@@ -364,7 +435,7 @@ func (m *AccessMon) Step(w *World, action string) {
 					continue
 				}
 				name, q := splitKey(strings.ReplaceAll(*rr.RID, "{cid}", c.CID))
-				a := m.latest(c.CID, accKey(name, q), rsp.At)
+				a := m.pick(c.CID, accKey(name, q), rsp.At, p.SentAt, func(a *accAns) bool { return a.grantG })
 				if a == nil {
 					w.Fail("C04", "data-without-access", "%s: resource response %s delivered with data although no access answer for it was ever delivered", c.Label, *rr.RID)
 				} else if !a.grantG {
@@ -379,8 +450,12 @@ func (m *AccessMon) Step(w *World, action string) {
 				continue
 			}
 			name, q := splitKey(strings.ReplaceAll(p.RID, "{cid}", c.CID))
-			a := m.latest(c.CID, accKey(name, q), rsp.At)
-			if a == nil || a.grantG || a.reqTime < p.SentAt {
+			cands := m.candidates(c.CID, accKey(name, q), rsp.At, p.SentAt)
+			if len(cands) != 1 {
+				continue // no verdict, or several concurrent ones: which error applies is open
+			}
+			a := cands[0]
+			if a.grantG || a.reqTime < p.SentAt {
 				continue
 			}
 			want := a.code
@@ -537,7 +612,12 @@ func (m *AccessMon) End(w *World) {
 		// any later grant or client subscribe makes the end state ambiguous
 		later := false
 		for _, b := range m.ans {
-			if b.cid == a.cid && b.key == a.key && b.reqTime > a.ansTime {
+			if b != a && b.cid == a.cid && b.key == a.key && (b.reqTime > a.ansTime || b.ansTime > a.ansTime) {
+				later = true // requested or (the service answers at delivery) answered later
+			}
+			// an access request in flight together with this one was granted:
+			// neither verdict supersedes the other
+			if b != a && b.cid == a.cid && b.key == a.key && b.ansTime != 0 && b.grantG && b.reqTime < a.ansTime && a.reqTime < b.ansTime {
 				later = true
 			}
 		}
